@@ -461,6 +461,24 @@ def run(ctx):
                                       how="argument is a deep copy", where=where(f, c))
             ctx.require(n_cb >= 1, "R20.2: failed-trial callback invocation not found")
 
+    # ------------------------------------------------------------- R20.7 study objects
+    ctx.rule("R20.7", "get_all_studies hands out study objects whose attribute dicts are not the storage's own (in-memory / journal mutate those dicts in place)")
+    f = p.func(INMEM + "._build_frozen_study")
+    ctor = [c for c in own_nodes(f.node) if isinstance(c, ast.Call) and dotted(c.func) == "FrozenStudy"]
+    ctx.require(len(ctor) == 1, "R20.7: _build_frozen_study must construct one FrozenStudy")
+    for k in ("user_attrs", "system_attrs"):
+        v = kwarg(ctor[0], k)
+        ok = isinstance(v, ast.Call) and dotted(v.func) == "copy.deepcopy"
+        ctx.check(ok, "R20.7", f.short, f"study-attrs-copied:{k}",
+                  message=f"InMemoryStorage builds FrozenStudy with {k}=`{norm(v) if v is not None else None}`: the returned study object aliases the dict that set_study_{k[:-1]} mutates in place",
+                  how="copy.deepcopy(study." + k + ")")
+    f = p.func(JOURNAL + ".get_all_studies")
+    rets = [n for n in own_nodes(f.node) if isinstance(n, ast.Return) and n.value is not None]
+    ok = bool(rets) and all(isinstance(r.value, ast.Call) and dotted(r.value.func) == "copy.deepcopy" for r in rets)
+    ctx.check(ok, "R20.7", f.short, "studies-deep-copied", message="JournalStorage.get_all_studies returns the replay result's own FrozenStudy objects (their attr dicts are updated in place by later records)",
+              how="copy.deepcopy(...)")
+    # Study.user_attrs/system_attrs deep copy is R20.2; FrozenStudy snapshots through optuna.get_all_study_summaries use these
+
     # ------------------------------------------------------------- R20.5 per-thread cache
     ctx.rule("R20.5", "Study's trial cache is thread-local and reset in ask and tell before use")
     tl = p.cls("optuna.study.study._ThreadLocalStudyAttribute")
